@@ -546,8 +546,8 @@ AnyP::Uri::parse(const HttpRequestMethod& method, const SBuf &rawUrl)
         while ((l = strlen(foundHost)) > 0 && foundHost[--l] == '.')
             foundHost[l] = '\0';
 
-        /* reject duplicate or leading dots */
-        if (strstr(foundHost, "..") || *foundHost == '.') {
+        /* reject duplicate or leading dots and names consisting of dots only */
+        if (strstr(foundHost, "..") || *foundHost == '.' || *foundHost == '\0') {
             debugs(23, DBG_IMPORTANT, MYNAME << "Illegal hostname '" << foundHost << "'");
             return false;
         }
